@@ -83,8 +83,16 @@ function build(desc, named, md) {
       return new C.MapRuntype(md, b(a[0]), b(a[1]));
     case "Set":
       return new C.SetRuntype(md, b(a[0]));
-    case "Disc":
-      return new C.AnyOfDiscriminatedRuntype(md, a[0].map(b), a[1], ownTable(a[2], b), ownTable(a[3], b));
+    case "Disc": {
+      // the emitted module hoists structurally equal validators into one constant: the variants of one union share instances the same way
+      const memo = new Map();
+      const bs = (d) => {
+        const k = JSON.stringify(d);
+        if (!memo.has(k)) memo.set(k, b(d));
+        return memo.get(k);
+      };
+      return new C.AnyOfDiscriminatedRuntype(md, a[0].map(bs), a[1], ownTable(a[2], bs), ownTable(a[3], bs));
+    }
     case "Optional":
       return new C.OptionalFieldRuntype(b(a[0]));
     case "Object":
